@@ -196,4 +196,36 @@ Disjoint == \A i, j \in 1..Len(calls) : i # j => Rng(calls[i].cons) \cap Rng(cal
    the completed calls are unchanged.  (Action property over FeedLine.)     *)
 CutMonotone == /\ IsPrefix(FlatFwd(FinalCalls), FlatFwd(FinalCallsOf(ps')))
                /\ IsPrefix(ps.calls, ps'.calls)
+
+---------------------------------------------------------------------------
+(***************************************************************************)
+(* The command (cmd/pp, internal/main.go process()): scan, render what was *)
+(* found, feed the remainder back in front of the unread input, until a    *)
+(* call reports an error.  At the end of the stream the remainder is       *)
+(* written out and the exit status is 0; after a parse error whatever was  *)
+(* buffered is written, the unread input is lost, and the status is 1.     *)
+(* Its output, call by call, as a sequence of items: a pass-through line   *)
+(* of the input (by index), or the rendering of the snapshot of a call.    *)
+(***************************************************************************)
+PPStop(FC) == CHOOSE i \in 1..Len(FC) : FC[i].err # "" /\ \A j \in 1..(i-1) : FC[j].err = ""
+LineItems(q, c) == [j \in 1..Len(q) |-> [k |-> "line", i |-> q[j], c |-> c]]      \* c: the call that writes it
+PPCall(FC, i, last) ==
+  LineItems(FC[i].fwd, i)
+  \o (IF FC[i].snap # <<>> THEN <<[k |-> "render", i |-> i, c |-> i]>> ELSE <<>>)
+  \o (IF last /\ FC[i].err = "eof" THEN LineItems(FC[i].tail, i) ELSE <<>>)
+PPItems(FC) == LET st == PPStop(FC) IN FlattenSeq([i \in 1..st |-> PPCall(FC, i, i = st)])
+(* the class "indent" leaves open whether an error is reported: no claim about the command then *)
+PPDetermined(FC) == \A i \in 1..Len(FC) : FC[i].err \in {"", "eof"}
+PPStatus(FC) == IF FC[PPStop(FC)].err = "eof" THEN 0 ELSE 1
+PP(FC) == IF PPDetermined(FC) THEN [determined |-> TRUE, status |-> 0, items |-> PPItems(FC)]
+          ELSE [determined |-> FALSE, status |-> 1, items |-> <<>>]
+
+(* C02, end to end: when the command exits 0, its output is its input with each dump
+   replaced by its rendering - putting the lines of each rendered dump back gives the input *)
+Expand(items, FC) == FlattenSeq([j \in 1..Len(items) |->
+                        IF items[j].k = "line" THEN <<items[j].i>> ELSE FC[items[j].i].cons])
+PPConserves == LET FC == FinalCalls IN
+  PPDetermined(FC) => /\ PPStop(FC) = Len(FC)                                 \* every call is reached
+                      /\ Expand(PPItems(FC), FC) = [k \in 1..n |-> k]
+
 =============================================================================
